@@ -87,6 +87,10 @@ type RWMutex struct {
 	r     int
 	wwait int
 	Snap  func() uint64 // see Mutex.Snap
+	// Quiet (harness): operations on this lock are not scheduling points unless they have to
+	// block. Used for the locks of shards that hold none of a driver's keys: such shards stay
+	// empty, everything done under their locks commutes, so interleavings there add nothing.
+	Quiet bool
 }
 
 type rside struct{ m *RWMutex }
@@ -102,7 +106,9 @@ func (m *RWMutex) Lock() {
 		return
 	}
 	m.wwait++
-	vrt.Block("rw.Lock", m.obj(), func() bool { return !m.w && m.r == 0 })
+	if !(m.Quiet && !m.w && m.r == 0) {
+		vrt.Block("rw.Lock", m.obj(), func() bool { return !m.w && m.r == 0 })
+	}
 	m.wwait--
 	m.w = true
 	vrt.HBAcquire(m)
@@ -119,6 +125,9 @@ func (m *RWMutex) Unlock() {
 	}
 	vrt.HBRelease(m)
 	m.w = false
+	if m.Quiet {
+		return
+	}
 	vrt.Yield("rw.Unlock", m.obj())
 }
 func (m *RWMutex) RLock() {
@@ -126,7 +135,9 @@ func (m *RWMutex) RLock() {
 		m.real.RLock()
 		return
 	}
-	vrt.Block("rw.RLock", m.obj(), func() bool { return !m.w && m.wwait == 0 })
+	if !(m.Quiet && !m.w && m.wwait == 0) {
+		vrt.Block("rw.RLock", m.obj(), func() bool { return !m.w && m.wwait == 0 })
+	}
 	m.r++
 	vrt.HBAcquire(m)
 	noteSnap(m.Snap)
@@ -141,6 +152,9 @@ func (m *RWMutex) RUnlock() {
 	}
 	vrt.HBRelease(rside{m})
 	m.r--
+	if m.Quiet {
+		return
+	}
 	vrt.Yield("rw.RUnlock", m.obj())
 }
 func (m *RWMutex) TryLock() bool {
